@@ -8,12 +8,12 @@ Import ListNotations.
 Module G := GenWorkers.
 
 Definition to_gen (o : outcome) : G.outcome :=
-  match o with Done => G.Done | Raised e => G.Raised (Z.to_nat e) | Broken => G.Broken end.
+  match o with Done => G.Done | Raised e => G.Raised (Z.to_nat e) | Broken => G.Broken | Exited => G.Exited end.
 Definition res_to_gen (r : result) : G.result :=
   match r with ROk => G.Ok | RReraise e => G.ErrReraise (Z.to_nat e) | RRuntime => G.ErrRuntime end.
 
 Lemma gen_wait_eq l : G.wait_on_futures (map to_gen l) = res_to_gen (wait_on_futures l).
-Proof. induction l as [|[|e|] tl IH]; cbn [map to_gen G.wait_on_futures wait_on_futures res_to_gen]; auto. Qed.
+Proof. induction l as [|[|e| |] tl IH]; cbn [map to_gen G.wait_on_futures wait_on_futures res_to_gen]; auto. Qed.
 Lemma gen_driver_eq l : G.driver (map to_gen l) = (res_to_gen (fst (driver l)), snd (driver l)).
 Proof.
   unfold G.driver, driver, G.pwm_exit, pwm_exit. rewrite gen_wait_eq.
@@ -21,7 +21,7 @@ Proof.
 Qed.
 
 Lemma success_implies_all_done_lemma completed : G.wait_on_futures completed = G.Ok -> Forall (fun o => o = G.Done) completed.
-Proof. induction completed as [|[|e|] tl IH]; cbn [G.wait_on_futures]; intros H; try discriminate; constructor; auto. Qed.
+Proof. induction completed as [|[|e| |] tl IH]; cbn [G.wait_on_futures]; intros H; try discriminate; constructor; auto. Qed.
 
 (* any completion order: as_completed yields a permutation of the submitted tasks' outcomes *)
 Lemma any_failure_errors_lemma submitted completed : Permutation submitted completed ->
@@ -43,7 +43,7 @@ Lemma first_failure_decides_lemma pre o post : Forall (fun x => x = G.Done) pre 
   G.wait_on_futures (pre ++ o :: post) = match o with G.Raised e => G.ErrReraise e | _ => G.ErrRuntime end.
 Proof.
   intros Hp Ho. induction Hp as [|x tl -> _ IH]; cbn [app G.wait_on_futures]; [|exact IH].
-  destruct o; [congruence|reflexivity|reflexivity].
+  destruct o; [congruence|reflexivity|reflexivity|reflexivity].
 Qed.
 (* an exception raised inside the with-block itself propagates (futures are cancelled, not waited) *)
 Lemma body_exception_propagates_lemma e completed : G.pwm_exit (Some e) completed = G.ErrReraise e.
